@@ -12,7 +12,8 @@ def reader_eval(case):
     configuration cannot describe (an element it lacks) is REFUSED — it is never delivered in another reading"""
     import io
     from cardutil import iso8583, mciipm
-    cfg = case['cfg']
+    import json
+    cfg = json.loads(json.dumps(case['cfg']))
     codec = case['codec']
     plain = copy.deepcopy(cfg)
     for fc in plain.values():
@@ -49,7 +50,10 @@ def impl_eval(case):
     if case.get('k') == 'reader':
         return reader_eval(case)
     from cardutil import iso8583
-    cfg = case['cfg']
+    import json
+    # the configuration as a caller gets it from a JSON file (cardutil.json, --config-file): every string in it is an
+    # object of its own, equal to — not the same object as — any literal in the library
+    cfg = json.loads(json.dumps(case['cfg']))
     plain = copy.deepcopy(cfg)
     for fc in plain.values():
         if fc.get('field_processor') in ('PAN', 'PAN-PREFIX'):
